@@ -104,7 +104,7 @@ def run(S):
         positive_on_normal_side=lambda a, r: pimplies(side(a) > 0, r >= 0),
         negative_on_inner_side=lambda a, r: pimplies(side(a) < 0, r <= 0),
         nonnegative_on_the_line=lambda a, r: pimplies(peq(side(a), 0), r >= 0),
-    ), sampler=samp, timeout=120000)
+    ), sampler=samp, timeout=300000)
 
     # ---- penalty energy and level-set constraints on one edge ---------------------------
     nq = 2
